@@ -555,6 +555,22 @@ func c06Suite(c *core.Collector, seed uint64, batch int, conns, nreq int, wraps 
 			}
 		}()
 	}
+	// two uploads pipelined in one write
+	for i := 0; i < 2; i++ {
+		wg.Add(1)
+		go func(i int) {
+			defer wg.Done()
+			viol, incon, n := c06Pipelined(srv.Addr, batch*1000+870+i, seed, 10)
+			c.Evals(int64(2 * n))
+			c.Count("pipelined_upload_pairs_answered_with_their_own_ids", int64(n))
+			if incon {
+				c.Inconclusive()
+			}
+			for _, v := range viol {
+				c.Violate(v[0], v[1], nil)
+			}
+		}(i)
+	}
 	// tail bursts: request + non-replying messages in one write; the reply must not wait for later traffic
 	for i := 0; i < 2+conns/6; i++ {
 		wg.Add(1)
@@ -588,4 +604,5 @@ func c06Worker(c *core.Collector, x *Ctx) {
 	c.Floor("replies_checked", 1000)
 	c.Floor("tail_bursts_answered_without_further_traffic", 20)
 	c.Floor("frames_numbered_across_a_re_request", 4)
+	c.Floor("pipelined_upload_pairs_answered_with_their_own_ids", 10)
 }
